@@ -480,8 +480,13 @@ def run():
                             cases.append(dict(id='exh-%s-%d-%d-%d' % (q, wi, ei, k), world=world, calls=[c1, c2],
                                               src='all 2-call histories over Calls(disk) of Repository_%s.cfg' % q))
                             k += 1
+        if ck.quick:
+            # quick: a seeded sample of the 2-call histories (thorough replays all of them)
+            exh = [c for c in cases if c['id'].startswith('exh-')]
+            keep = set(c['id'] for c in ck.rng.sample(exh, min(len(exh), 420)))
+            cases = [c for c in cases if not c['id'].startswith('exh-') or c['id'] in keep]
         # -------------------------------------------------------- S->C 3: simulated behaviours of the model
-        nsim = 40 if ck.quick else 600
+        nsim = 30 if ck.quick else 600
         simdir = os.path.join(ck.tmp, 'sim')
         os.makedirs(simdir)
         ck.tlc_mc('RepositoryMC', 'Repository_sim.cfg', timeout=600, coverage=False, workers=1,
@@ -492,7 +497,7 @@ def run():
                 cases.append(dict(id='sim-%d' % i, world=world, calls=calls, src='tlc -simulate Repository_sim.cfg', pred=pred))
         shutil.rmtree(simdir, ignore_errors=True)
         # -------------------------------------------------------- C->S: random worlds and histories
-        nclean, nzone = (260, 60) if ck.quick else (5000, 1200)
+        nclean, nzone = (140, 40) if ck.quick else (5000, 1200)
         for i in range(nclean):
             cases.append(random_case(ck.rng, 'rand-%d' % i, False))
         for i in range(nzone):
@@ -509,7 +514,8 @@ def run():
     # ------------------------------------------------------------ verdicts by TLC
     obs = [dict(id=t['id'], env=t['env'], disk=t['disk'], vchars=t['vchars'],
                 events=[{k: v for k, v in e.items() if k not in ('crit', 'rc')} for e in t['events']]) for t in traces]
-    chunk = max(200, (len(obs) + 5) // 6)
+    npar = max(1, min(NCPU - 2, 12))
+    chunk = max(40, (len(obs) + npar - 1) // npar)
     parts = [obs[k:k + chunk] for k in range(0, len(obs), chunk)]
     rejected = []
 
@@ -529,7 +535,7 @@ def run():
         return [tuple(x) for x in v.get('rejected', [])], v.get('exercised', {}), r['wall_s']
 
     exercised = {}
-    with ThreadPoolExecutor(min(len(parts), 6) or 1) as ex:
+    with ThreadPoolExecutor(min(len(parts), npar) or 1) as ex:
         for rej, exd, wall in ex.map(verdict, list(enumerate(parts))):
             rejected += rej
             for c, n in exd.items():
@@ -549,6 +555,13 @@ def run():
     for tid, clause, detail in rejected:
         t = by_id[tid]
         pos, op, cause = (detail.split(':') + ['', ''])[:3]
+        if clause == 'EXTRA':
+            msg = 'BEYOND-STATEMENT %s: behaviour clause %s (not part of C17) does not hold at event %s (%s)' % (tid, cause, pos, op)
+            ck.cov.setdefault('beyond_statement', {}).setdefault(cause, 0)
+            ck.cov['beyond_statement'][cause] += 1
+            if len([n for n in ck.notes if n.startswith('BEYOND')]) < 5:
+                ck.notes.append(msg)
+            continue
         if clause == 'DRIFT':
             ndrift += 1
             if len(ck.notes) < 40:
